@@ -208,6 +208,8 @@ func driveC26b(toks []string) string {
 		return EncodeType(t2)
 	case "pred":
 		return driveC26pred(toks)
+	case "tree":
+		return driveC26tree(toks)
 	}
 	return "bad-op"
 }
